@@ -101,6 +101,8 @@ func stackConfigs(rng *rand.Rand, t *TopoSpec) []StackCfg {
 type stackResult struct {
 	cfg    StackCfg
 	q1, q2 *QueryObs
+	// overrun: queries of this run whose packet count exceeded the budget
+	overrun []*QueryObs
 }
 
 func (s *stackResult) watchdog() bool {
@@ -198,9 +200,25 @@ func (run *runner) topology(index int) {
 		}
 		results[cfg.Label] = res
 		order = append(order, res)
-		run.judgeReplies(w, res)
+		run.judgeReplies(w, res, nil)
 		if res.watchdog() {
 			return // a wedged pipeline: nothing more can be learnt in this process state
+		}
+		if len(res.overrun) > 0 {
+			// More packets than the budget allows. The servers listen on
+			// loopback ports of a shared machine, so before this is called a
+			// violation the same configuration is run once more on a fresh
+			// stack: a missing debit reproduces, a stray datagram does not.
+			r.Count("enforce_packet_overruns_rechecked", 1)
+			again := run.runStack(w, cfg)
+			if again == nil || again.watchdog() {
+				return
+			}
+			run.judgeReplies(w, again, res)
+			if len(again.overrun) == 0 {
+				o := res.overrun[0]
+				r.Inconclusive(fmt.Sprintf("topology %d %s: %d packets for a budget of %d were logged once and not again on a fresh stack (first run upstream log: %v)", index, cfg.Label, o.Packets, cfg.outboundBudget(), o.Upstream))
+			}
 		}
 	}
 
@@ -408,7 +426,9 @@ func obsPackets(o *QueryObs) int {
 }
 
 // judgeReplies applies the per-reply checks that need no other run.
-func (run *runner) judgeReplies(w *world, res *stackResult) {
+// prior is nil on the first run of a configuration and the first run's result
+// when this is the confirmation run after a packet overrun.
+func (run *runner) judgeReplies(w *world, res *stackResult, prior *stackResult) {
 	r := run.r
 	spec := w.spec
 	cfg := res.cfg
@@ -500,10 +520,16 @@ func (run *runner) judgeReplies(w *world, res *stackResult) {
 		if budget >= 128 {
 			r.Max("max_packets_per_query_default_budget", int64(obs.Packets))
 		}
+		r.Count("foreign_packets_ignored", obs.Foreign)
 		if obs.Packets > budget {
+			res.overrun = append(res.overrun, obs)
+		}
+		if obs.Packets > budget && prior != nil {
+			c.Ref = prior.overrun[0]
 			r.Violation("enforce/outbound-packets-exceed-budget",
 				fmt.Sprintf("%s under %s: query %d (%s) caused %d packets at the scripted servers (tcp %d, after the reply %d) with max_outbound_queries=%d; ledger debits %d",
-					spec.shape(), cfg.Label, qi+1, obs.Query, obs.Packets, obs.TCPPackets, obs.AfterReply, budget, obs.Debits), c)
+					spec.shape(), cfg.Label, qi+1, obs.Query, obs.Packets, obs.TCPPackets, obs.AfterReply, budget, obs.Debits)+
+					fmt.Sprintf(" — confirmed: the previous fresh stack with the same configuration logged %d packets for %s", prior.overrun[0].Packets, prior.overrun[0].Query), c)
 		}
 		if obs.budgetEDE {
 			if !obs.servfail() || len(obs.reply.Answer) > 0 {
